@@ -284,6 +284,46 @@ func raceExtra(ctx *core.Ctx) (int, string, []core.ExtraFailure) {
 				"rerun": fmt.Sprintf("%s -mode hist -seed %s", bin, seed)}})
 		break
 	}
+	// ---- atomicity of the bulk operations (snapshot counts must be 0 or N)
+	bulkDur, minCycles := "1200ms", "40"
+	if ctx.Tier == "thorough" {
+		bulkDur, minCycles = "20s", "2000"
+	}
+	for _, n := range []string{"300", "1000"} {
+		so, se3, err := runRacer(bin, timeout, "-mode", "bulk", "-seed", seed, "-n", n, "-dur", bulkDur, "-mincycles", minCycles)
+		var bn, cycles, obs, wits int
+		fmt.Sscanf(strings.TrimSpace(lastLineWith(so, "BULKSTAT ")), "BULKSTAT n=%d cycles=%d observations=%d witnesses=%d", &bn, &cycles, &obs, &wits)
+		evals += cycles
+		note += fmt.Sprintf("; bulk N=%s: %d fill/empty cycles, %d snapshot counts, %d not in {0,N}", n, cycles, obs, wits)
+		if err != nil || cycles == 0 {
+			fails = append(fails, core.ExtraFailure{
+				Failure: core.Failure{Key: "racer-run", Desc: fmt.Sprintf("racer (bulk) did not complete: %v; stderr: %s", err, clipStr(se3, 1500))},
+				Payload: map[string]any{"stderr": clipStr(se3, 4000), "seed": seed}, NoInput: !strings.Contains(se3, "fatal error:")})
+		}
+		for _, r := range parseRaces(se3) {
+			fails = append(fails, core.ExtraFailure{
+				Failure: core.Failure{Key: raceKey(r, ill), Desc: fmt.Sprintf("DATA RACE during the bulk run (SafeKV methods in the report: %v)", r.Methods)},
+				Payload: map[string]any{"seed": seed, "race_report": r.Text}})
+		}
+		for _, l := range strings.Split(so, "\n") {
+			if !strings.HasPrefix(l, "BULK ") {
+				continue
+			}
+			var w struct {
+				Observer string `json:"observer"`
+				Writer   string `json:"writer_call_in_flight"`
+				N        int    `json:"n"`
+				Observed int    `json:"observed_count"`
+			}
+			raw := json.RawMessage(strings.TrimPrefix(l, "BULK "))
+			_ = json.Unmarshal(raw, &w)
+			wr := strings.TrimSuffix(strings.TrimSuffix(w.Writer, "(fill)"), "(empty)")
+			fails = append(fails, core.ExtraFailure{
+				Failure: core.Failure{Key: "not-atomic:" + wr, Desc: fmt.Sprintf("%s observed %d entries while the map only ever holds 0 or %d between calls (writer call in flight: %s): a bulk operation or the snapshot is not atomic", w.Observer, w.Observed, w.N, w.Writer)},
+				Payload: map[string]any{"witness": raw, "methods": []string{w.Observer, w.Writer},
+					"rerun": fmt.Sprintf("%s -mode bulk -seed %s -n %s", bin, seed, n)}})
+		}
+	}
 	return evals, note, fails
 }
 
